@@ -6,10 +6,16 @@ pair-of-doubles complex type through Drivers/C02.lean) and
                                           rigid-body and residual-flexibility partitions, pre_eig)
   * pyyeti.ode.FreqDirect(...).fsolve    (direct solve per frequency)
   * pyyeti.ode.solvepsd                  (unit FRFs scaled by the force PSDs, trapezoidal RMS)
-over coupled/uncoupled x rb/rf layouts (contiguous and interleaved) x all eight incrb subsets x
-rf_disp_only x pre_eig x real/complex coefficients x mass None/vector/matrix, 0 Hz included for
-SolveUnc.  The external kernels (eig, eigh, LU) enter the model as data with a specification whose
-residual is measured here on every case.
+over coupled/uncoupled x rb/rf layouts (contiguous and interleaved, index vectors also unsorted) x all
+eight incrb subsets x rf_disp_only x pre_eig x real/complex coefficients x mass None/vector/matrix x
+dtype (float64 / float32 / integer matrices, complex128 / complex64 forces) x argument shapes (1-D and
+2-D force arrays, scalar / single / repeated frequencies), 0 Hz included for SolveUnc; solvepsd also
+with the uncertainty factors rbduf / elduf.  An *exact* stream compares the constructor bookkeeping
+(nonrf, rb, el, _rb, _el, kdof, the rows behind the reduced m, b, k, imrb, invm) of every constructed
+solver with the model's explicit state (Model/FreqSolve.lean: mkLayout, suInit).  eig and eigh enter the
+model as data with a specification whose residual is measured here on every case; the linear solves are
+the model's own Gaussian elimination (proved correct in Props/C02b.lean), compared numerically with
+LAPACK's result.
 
 The oracle (`search`) never touches the model: residual of (-W^2 M + iW B + K) d - F on the
 dynamic rows, static residual on the rf rows, v = iW d, a = -W^2 d, exact zeros per incrb /
@@ -26,7 +32,7 @@ import scipy.linalg as la
 from runner import Infra
 
 ID = "C02"
-LEAN_MODULES = ["PyYetiVerif.Props.C02", "PyYetiVerif.Audit.C02"]
+LEAN_MODULES = ["PyYetiVerif.Props.C02", "PyYetiVerif.Props.C02h", "PyYetiVerif.Audit.C02"]
 AUDIT_FILE = "PyYetiVerif/Audit/C02.lean"
 THEOREMS = [
     "PyYetiVerif.C02." + n
@@ -35,64 +41,106 @@ THEOREMS = [
         "incrb_only_rb rf_rows rowUnc_eq_rowDirect direct_unique frfCoupled_solves direct_eq_modal "
         "solvePsd_def solvePsd_linear solvePsd_nonneg trapz_nonneg rms_sq parseIncrb_spec "
         "imrbPick_correct rbMaskAssignPrefix_partial rbMaskAssignPrefix_counterexample imrbPickPrefix_partial "
-        "imrbPickPrefix_counterexample"
+        "imrbPickPrefix_counterexample "
+        # Props/C02b: the linear solver of the model
+        "gaussList_spec gaussSolve_spec gaussSolve_none_singular gaussSolve_complete freqDirect_gauss_solves "
+        "direct_eq_modal_gauss "
+        # Props/C02c: partition bookkeeping, constructor state, scatter
+        "layout_correct imrb_correct imrbPick_is_state_rows findings_instances scatter_covers "
+        # Props/C02d-f: blocks and whole columns
+        "fsolve_full_solves fsolve_full_va rfBlock_solves rbBlock_solves elBlockUnc_solves elBlockCoup_solves "
+        "fdBlock_solves fd_incrb_rows colFD_solves colSU_solves "
+        # Props/C02g: solvepsd uncertainty factors
+        "applyUf_rows frfRec_with_uf solvePsd_with_uf preEig_solves "
+        # Props/C02i: incrb / rf_disp_only at the level of the whole column
+        "rfVals_options rfVals_length rbAcc_length rbVals_options elValsCoup_length elValsSU_rows "
+        "colSU_options colFD_options"
     ).split()
 ]
 TRUSTED = [
-    "correspondence harness harness/props/c02.py (numeric comparison, |impl-model| <= 1e-9*scale, conditioning guard)",
-    "numpy/scipy kernels modelled by specification: la.solve / lu_factor+lu_solve ('returns a solution of a "
-    "non-singular system'; the model's executable stand-in is Gaussian elimination, residual measured per run), "
-    "eigss/addconj ('A U = U diag(lam), U invertible', partitioned residuals measured per case), "
-    "scipy.linalg.eigh for pre_eig (phi^T M phi = I, phi^T K phi = diag w, residual measured per case)",
+    "correspondence harness harness/props/c02.py (numeric comparison, |impl-model| <= 1e-9*scale, 2e-5*scale for "
+    "float32 matrices; exact comparison of the partition vectors and of the constructor state; conditioning guard)",
+    "numpy/scipy kernels modelled by specification: eigss/addconj ('A U = U diag(lam), U invertible', partitioned "
+    "residuals measured per case), scipy.linalg.eigh for pre_eig (phi^T M phi = I, phi^T K phi = diag w, residual "
+    "measured per case); la.solve / lu_factor+lu_solve are modelled by the Gaussian elimination `gaussList`, which is "
+    "proved to return a solution / refuse only singular systems over any field (LAPACK itself is not modelled: its "
+    "floating-point result is compared with the model's per case)",
     "IEEE double rounding of the closed-form expressions is measured (1e-9 relative), not proved",
-    "composition of the partitions (index gather/scatter of rb/el/rf blocks) in fsolveSU/fsolveFD is tied by "
-    "correspondence only; theorems are about the per-row and per-block formulas",
+    "the array plumbing between the proved column functions (colSU, colFD: one frequency) and the whole call — "
+    "looping over the frequencies, phi^T F and phi d of pre_eig, Array/List conversions in fsolveSU / fsolveFD / "
+    "solvePsdCase — is tied by correspondence only",
 ]
 RULE = (
     "systems are generated in modal layout: every equation is rigid-body (k = b = 0), elastic (0.5-30 Hz, "
     "damping ratio 0.005-2, proportional / non-proportional / diagonal damping) or residual-flexibility (stiff), "
     "blocks decoupled from each other, positions contiguous or interleaved, n <= 7, mass None / vector / full "
-    "matrix, real or complex (hysteretic stiffness, complex damping or mass); pre_eig systems are free-free or "
-    "grounded spring-damper chains in physical coordinates.  Each system is run with all 8 incrb subsets x "
+    "matrix, real or complex (hysteretic stiffness, complex damping or mass); rb given as nothing / index vector "
+    "(also unsorted) / bool vector, rf as index vector (also unsorted); pre_eig systems are free-free or grounded "
+    "spring-damper chains in physical coordinates; every 4th system is repeated with float32 matrices and every 4th "
+    "with integer matrices, every 5th with complex64 forces.  Each system is run with all 8 incrb subsets x "
     "rf_disp_only in {F,T} (letters in random order; integer forms sampled), 1-4 frequencies including 0 Hz "
-    "(SolveUnc) and near-resonance values, complex random forces.  A case is one (system, options, solver) "
-    "evaluation compared on every entry of d, v, a; non-trivial = the system has at least two partitions or is "
-    "coupled/complex/pre_eig; distinct by the full input.  Cases whose measured eigen-specification residual or "
-    "dynamic-stiffness condition number is outside the guard are skipped and counted."
+    "(SolveUnc), near-resonance values, repeated values and a scalar frequency, complex random forces; a fixed "
+    "stream covers 1-D force arrays.  A case is one (system, options, solver) evaluation compared on every entry of "
+    "d, v, a; plus one exact comparison of the constructor bookkeeping (nonrf, rb, el, _rb, _el, kdof, the rows "
+    "behind the reduced m, b, k, imrb, invm) per (system, solver); plus solvepsd cases with rbduf / elduf in "
+    "{1, 1.25, 0.8, 2}.  Non-trivial = the system has at least two partitions or is coupled/complex/pre_eig; "
+    "distinct by the full input.  Cases whose measured eigen-specification residual or dynamic-stiffness condition "
+    "number is outside the guard are skipped and counted."
 )
 ASSUMPTIONS = [
     "modal-space equations: rigid-body, elastic and residual-flexibility partitions are decoupled from each other "
     "(the solvers extract the diagonal blocks and ignore anything else)",
     "rigid-body equations have zero stiffness and damping when SolveUnc is compared with FreqDirect",
     "the dynamic stiffness of the elastic block is non-singular at the requested frequencies (cond <= 1e8 in the runs)",
-    "rbduf = elduf = 1 in solvepsd",
+    "partition vectors are valid: rf entries distinct and < n, a user rb vector distinct, < n and disjoint from rf",
+    "solvepsd uncertainty factors are judged for modal-space solvers only (with pre_eig the source scales physical "
+    "rows; recorded as an observation)",
 ]
 PARTIAL = (
-    "the coupled path rests on the eigen-decomposition specification (frfCoupled_solves assumes A U = U Lambda in "
-    "partitioned form and U^-1 partitions; residuals measured, not proved); linear solves are a specification "
-    "(Gaussian elimination in the driver is not proved correct); the gather/scatter composition of partitions and "
-    "the stateful constructor bookkeeping (get_su_eig shrinking m, b, k) are tied by correspondence only; "
-    "floating-point accuracy is measured, not proved"
+    "the coupled elastic block rests on the eigen-decomposition specification (hypothesis hcoup of colSU_solves = the "
+    "relations of frfCoupled_solves: A U = U Lambda in partitioned form and the U^-1 partitions; residuals measured per "
+    "case, not proved); the full-size equation (colSU_solves / colFD_solves) is stated for incrb = 'dva', rf_disp_only = "
+    "False, W != 0, and every other option value / W = 0 is related to that column entry by entry (colSU_options, "
+    "colFD_options, frfRb_zero_freq) rather than by a separate full-size equation; the pre_eig path rests on the eigh "
+    "specification (preEig_solves assumes phi^T M phi = Mm etc. and det phi != 0; residual measured per case); the "
+    "array plumbing of the whole call (loop over the frequencies, Array/List conversions, phi^T F and phi d as "
+    "executed) is tied by correspondence only; floating-point accuracy is measured, not proved"
 )
 MANIFEST = {
-    "level_text": "Proof (Lean 4, kernel-checked, standard axioms only) about polymorphic models of the frequency-domain "
-    "formulas, over any field with an element i (instantiated at C): the uncoupled closed forms of SolveUnc and "
-    "FreqDirect solve (k - m W^2 + i W b) d = f with v = iWd, a = -W^2 d; the rigid-body solution solves -W^2 m d = f "
-    "for W != 0 and is d = v = 0, a = f/m at W = 0; for each of the 8 incrb subsets exactly the complementary "
-    "rigid-body rows are zero and nothing else changes; residual-flexibility rows are static with v, a zero iff "
-    "rf_disp_only; the complex-mode (coupled) solution solves the matrix equation given the eigen-decomposition "
-    "specification, hence equals the direct solution (uniqueness for a non-singular dynamic stiffness); response PSD "
-    "= sum_i PSD_i |H_i|^2 is linear and non-negative in the PSDs and RMS^2 is the trapezoid area >= 0. The same "
-    "definitions are executed at a pair-of-doubles complex type and compared with SolveUnc.fsolve, FreqDirect.fsolve "
-    "and solvepsd over the whole option grid.",
-    "level_note": "Partial: eig/eigh/LU are specifications whose residuals are measured each run; block gather/scatter "
-    "and floating-point accuracy are tied by correspondence (1e-9 relative inside a conditioning guard), not proved.",
-    "technique": "Lean 4 proof (field algebra, Mathlib matrices, decide over incrb subsets) + numeric differential "
-    "correspondence with SolveUnc/FreqDirect/solvepsd + model-free residual oracle",
+    "level_text": "Proof (Lean 4, kernel-checked, standard axioms only) about the definitions the driver executes, over any "
+    "field with an element i (instantiated at C; non-vacuity instances evaluated over ZMod 5). Formulas: the uncoupled "
+    "closed forms of SolveUnc and FreqDirect solve (k - m W^2 + i W b) d = f with v = iWd, a = -W^2 d; the rigid-body "
+    "solution solves -W^2 m d = f for W != 0 and is d = v = 0, a = f/m at W = 0; for each of the 8 incrb subsets "
+    "exactly the complementary rigid-body rows are zero; residual-flexibility rows are static with v, a zero iff "
+    "rf_disp_only; the complex-mode solution solves the matrix equation given the eigen-decomposition specification, "
+    "hence equals the direct solution. Linear solves: the model's Gaussian elimination with partial pivoting returns "
+    "a solution whenever it returns (gaussSolve_spec), refuses only singular systems (gaussSolve_none_singular) and "
+    "therefore returns the unique solution of every non-singular system. Bookkeeping: _make_rb_el yields nonrf[_rb] = "
+    "rb (sorted), nonrf[_el] = el and rb ++ el ++ rf a permutation of 0..n-1 for every rf / rb specification "
+    "(layout_correct); the SolveUnc constructor as explicit state (get_su_eig shrinking m, b, k, kdof and emptying "
+    "_rb) pairs force[rb] with the rigid-body equations' own mass rows on every path (imrb_correct; the inputs of "
+    "findings F8, F27, F28, F36 are evaluated instances). Scatter: every row of d, v, a is written exactly once by "
+    "its own block (scatter_covers) and the assembled column satisfies the full-size block-diagonal-by-partition "
+    "equation row by row (fsolve_full_solves); colSU_solves / colFD_solves carry this from the constructor state "
+    "through the block solves to the returned column of SolveUnc.fsolve / FreqDirect.fsolve, and colSU_options / "
+    "colFD_options show that for every incrb subset, both rf_disp_only values and every W the returned column is "
+    "that column with exactly the excluded letters cleared on the rigid-body rows and v, a cleared on the "
+    "residual-flexibility rows iff rf_disp_only. solvepsd: response PSD "
+    "= sum_i PSD_i |H_i|^2, linear and non-negative, RMS^2 = trapezoid area >= 0; rbduf / elduf multiply exactly the "
+    "rigid-body / elastic rows and enter the PSD squared (solvePsd_with_uf). The same definitions are executed at a "
+    "pair-of-doubles complex type and compared with SolveUnc.fsolve, FreqDirect.fsolve and solvepsd over the whole "
+    "option grid, dtype and shape axes included, and the constructor state is compared exactly.",
+    "level_note": "Partial: the eigen-decomposition (eig) and eigh of pre_eig are specifications whose residuals are measured "
+    "each run; the per-frequency loop and the pre_eig transforms are tied by correspondence; floating-point accuracy "
+    "is measured (1e-9 relative inside a conditioning guard; 2e-5 for float32 matrices), not proved.",
+    "technique": "Lean 4 proof (field algebra, Mathlib matrices and permutations, structural recursion for the elimination, "
+    "decide for the incrb subsets and the recorded finding inputs) + numeric and exact differential correspondence "
+    "with SolveUnc/FreqDirect/solvepsd + model-free residual oracle",
 }
 
 INCRB_SUBSETS = ["", "d", "v", "a", "dv", "da", "va", "dva"]
 TOL = 1e-9
+F32_TOL = 2e-5
 ORACLE_TOL = 1e-8
 
 
@@ -332,6 +380,8 @@ def gen_freq(rs, sysd, allow_zero):
         fr[0] = float(np.sqrt(w2) / (2 * np.pi) * rs.uniform(0.98, 1.02))
     if allow_zero and rs.random() < 0.5:
         fr[int(rs.integers(0, nf))] = 0.0
+    if nf >= 2 and rs.random() < 0.25:
+        fr[1] = fr[0]  # a frequency may be requested more than once
     return np.array(sorted(fr))
 
 
@@ -345,13 +395,59 @@ def spec_of(sysd, solver, incrb, rfd, freq, F):
         "cplx": sysd["cplx"], "mkind": sysd["mkind"], "boundary": sysd["boundary"],
         "incrb": incrb, "rfd": bool(rfd), "freq": [float(x) for x in freq], "F": _enc(F),
         "corpus": bool(sysd.get("corpus", False)),
+        "variant": sysd.get("variant"),
     }
+
+
+def _cast_sys(spec, x):
+    """dtype axis: the values are representable in the target type (see `_variant_system`)"""
+    v = spec.get("variant")
+    if x is None:
+        return None
+    if v == "f32":
+        return x.astype(np.complex64 if np.iscomplexobj(x) else np.float32)
+    if v == "int":
+        return x.astype(np.int64)
+    return x
+
+
+def _variant_system(sysd, variant):
+    """the same system with m, b, k representable as float32 / as integers (None when not applicable)"""
+    s = dict(sysd, variant=variant)
+    if variant == "f32":
+        for key in "mbk":
+            x = s[key]
+            if x is not None:
+                x = np.asarray(x)
+                s[key] = x.astype(np.complex64).astype(complex) if np.iscomplexobj(x) else x.astype(np.float32).astype(float)
+        return s
+    if variant == "int":
+        if sysd["cplx"] or sysd["boundary"]:
+            return None
+        n = np.shape(sysd["k"])[0]
+        for key in "mbk":
+            x = s[key]
+            if x is None:
+                continue
+            x = np.asarray(x, float)
+            if key == "m":
+                y = np.rint(x) + (np.eye(n) if x.ndim == 2 else 1.0)
+            elif key == "b":
+                y = np.ceil(x) if x.ndim == 1 else np.rint(x) + np.diag(np.ceil(np.abs(np.diag(x))) > 0).astype(float)
+            else:
+                y = np.rint(x)
+            s[key] = y
+        M = _full(s["m"], n)
+        if np.linalg.cond(M) > 1e3 or (M.ndim == 2 and np.linalg.eigvalsh((M + M.T) / 2).min() <= 0.2):
+            return None
+        return s
+    return s
 
 
 def _mk_solver(spec):
     from pyyeti import ode
 
-    m, b, k = _dec(spec["m"]), _dec(spec["b"]), _dec(spec["k"])
+    m, b, k = (_cast_sys(spec, _dec(spec[key])) for key in "mbk")
     rb = spec["rb"]
     if rb is not None and spec.get("rb_bool"):
         v = np.zeros(k.shape[0], bool)
@@ -366,23 +462,38 @@ def _mk_solver(spec):
         return ode.FreqDirect(m, b, k, rb=rb, rf=spec["rf"])
 
 
+def _fsolve_args(spec):
+    """force and frequency arguments as the call passes them (dtype / shape axes)"""
+    F = _dec(spec["F"])
+    freq = np.array(spec["freq"])
+    fv = spec.get("fvariant")
+    if fv == "c64F":
+        F = F.astype(np.complex64)
+    elif fv == "F1d":
+        F = F.reshape(-1)  # a 1-D force array
+    if spec.get("scalar_freq"):
+        freq = float(freq[0])
+    return F, freq
+
+
 def _run_impl(spec, ts=None):
     """returns (ts, sol | ('exception', kind, message))"""
     try:
         if ts is None:
             ts = _mk_solver(spec)
+        F, freq = _fsolve_args(spec)
         with warnings.catch_warnings():
             warnings.simplefilter("ignore")
             with np.errstate(all="ignore"):
-                sol = ts.fsolve(_dec(spec["F"]), np.array(spec["freq"]), incrb=spec["incrb"],
-                                rf_disp_only=spec["rfd"])
+                sol = ts.fsolve(F, freq, incrb=spec["incrb"], rf_disp_only=spec["rfd"])
         return ts, sol
     except Exception as e:  # noqa: BLE001 - the kind is the observation
         return ts, ("exception", type(e).__name__, str(e)[:200])
 
 
 def _exc_kind(name):
-    return {"ValueError": "value-error", "KeyError": "value-error", "IndexError": "index-error"}.get(name, name)
+    return {"ValueError": "value-error", "KeyError": "value-error", "IndexError": "index-error",
+            "LinAlgError": "singular"}.get(name, name)
 
 
 # ---------------------------------------------------------------------------------------
@@ -397,13 +508,15 @@ def _modal_inputs(spec, ts):
     phi = None
     info = {}
     if spec["pre_eig"] and ts is not None:
-        w, u = la.eigh(K, M) if spec["m"] is not None else la.eigh(K)
+        # with the dtype of the call (float32 / integer matrices): `_do_pre_eig` works in that dtype
+        Kc, Mc = _cast_sys(spec, K), _cast_sys(spec, M)
+        w, u = la.eigh(Kc, Mc) if spec["m"] is not None else la.eigh(Kc)
         phi = ts.phi
         info["phi_same"] = bool(np.array_equal(u, phi))
         info["eigh_resid"] = float(
             max(abs(phi.T @ M @ phi - np.eye(n)).max(), abs(phi.T @ K @ phi - np.diag(w)).max() / max(1.0, abs(w).max()))
         )
-        b = _dec(spec["b"])
+        b = _cast_sys(spec, _dec(spec["b"]))
         B = (phi.T * b) @ phi if b.ndim == 1 else phi.T @ b @ phi
         M, K = np.eye(n), np.diag(w)
     return n, M, B, K, phi, info
@@ -520,7 +633,15 @@ def _systems(ctx, rs):
             out.append(gen_coup(rs, cplx, mkind))
         for _ in range(npre // 2):
             out.append(gen_pre(rs, cplx, mkind))
-    out = _corpus() + out
+    # dtype axis: every 4th system also as float32 matrices, every 4th as integer matrices
+    extra = []
+    for j, sysd in enumerate(out):
+        v = {1: "f32", 2: "int"}.get(j % 4)
+        if v:
+            t = _variant_system(sysd, v)
+            if t is not None:
+                extra.append(t)
+    out = _corpus() + out + extra
     return out
 
 
@@ -542,6 +663,7 @@ def correspondence(ctx):
     drv = ctx.driver("C02")
     systems = _systems(ctx, rs)
     jobs = []  # (spec, ts, sol, line, n, info, einfo)
+    state_jobs = []  # (spec, ts, line)
     worst = {"su": 0.0, "fd": 0.0, "psd": 0.0, "eig_resid": 0.0, "eigh_resid": 0.0, "gauss_resid": 0.0}
     for si, sysd in enumerate(systems):
         for solver in ("su", "fd"):
@@ -551,9 +673,27 @@ def correspondence(ctx):
             freq = gen_freq(rs, sysd, allow_zero=(solver == "su" or not has_rb))
             n = np.shape(sysd["k"])[0]
             F = rs.standard_normal((n, freq.size)) + 1j * rs.standard_normal((n, freq.size))
+            fvar = None
+            if si % 5 == 3:
+                fvar = "c64F"  # single-precision complex forces (values representable)
+                F = F.astype(np.complex64).astype(complex)
+            scalar_freq = bool(freq.size == 1 and rs.random() < 0.5)
             ts = None
+            first = True
             for incrb, rfd in _option_grid(rs, full=(si % 3 == 0) or ctx.thorough or sysd.get("corpus", False)):
                 spec = spec_of(sysd, solver, incrb, rfd, freq, F)
+                spec["fvariant"] = fvar
+                spec["scalar_freq"] = scalar_freq
+                if first:
+                    # constructor bookkeeping, once per (system, solver): exact stream
+                    first = False
+                    try:
+                        ts0 = _mk_solver(spec)
+                    except Exception:  # noqa: BLE001 - reported by the fsolve stream below
+                        ts0 = None
+                    if ts0 is not None:
+                        state_jobs.append((spec, ts0, "state %s %s" % (solver, _header(spec, ts0)[0])))
+                        ts = ts0
                 ts, sol = _run_impl(spec, ts)
                 line, n_, mats, info, einfo = _solve_line(spec, ts)
                 jobs.append((spec, ts, sol, line, n, info, einfo))
@@ -564,7 +704,7 @@ def correspondence(ctx):
     F0 = np.ones((n0, 2), complex)
     extra = []
     for solver in ("su", "fd"):
-        for inc in (0, 1, 2, "x", "dvb", "ddvvaa"):
+        for inc in (0, 1, 2, "x", "dvb", "ddvvaa", "DVA", "Va", "d-v"):
             extra.append(spec_of(base, solver, inc, False, fq, F0))
         extra.append(spec_of(base, solver, "dva", False, fq, np.ones((n0 + 1, 2), complex)))
         extra.append(spec_of(base, solver, "dva", False, fq, np.ones((n0, 3), complex)))
@@ -582,7 +722,8 @@ def correspondence(ctx):
             "complex" if spec["cplx"] else "real",
         )
         key = (spec["solver"], repr(spec["m"]), repr(spec["b"]), repr(spec["k"]), spec["rb"], spec["rf"],
-               spec["incrb"], spec["rfd"], spec["freq"], repr(spec["F"]))
+               spec["incrb"], spec["rfd"], spec["freq"], repr(spec["F"]), spec.get("variant"), spec.get("fvariant"),
+               spec.get("scalar_freq"))
         nontriv = bool(spec["pre_eig"] or spec["cplx"] or not spec["unc"] or len(set(spec["cls"] or [])) > 1)
         rep = next(reps)
         nf = len(spec["freq"])
@@ -612,6 +753,9 @@ def correspondence(ctx):
                              model if isinstance(model, str) else "a solution")
             continue
         if isinstance(model, str):
+            if model == "error singular" and not all(np.isfinite(c).all() for c in (sol.d, sol.v, sol.a)):
+                ctx.skip("exactly singular block: the model's elimination refuses, LAPACK returns non-finite values")
+                continue
             ctx.disagree(tag, spec, "a solution", model)
             continue
         # measured specifications ---------------------------------------------------
@@ -620,8 +764,17 @@ def correspondence(ctx):
             if not info["phi_same"]:
                 ctx.disagree(tag + "-phi", spec, "phi differs from eigh(k, m)", "phi = eigh(k, m)[1]")
                 continue
+        f32 = spec.get("variant") == "f32"
+        if spec.get("variant"):
+            ctx.count("variant:" + spec["variant"])
+        if spec.get("fvariant"):
+            ctx.count("variant:" + spec["fvariant"])
+        if spec.get("scalar_freq"):
+            ctx.count("freq:scalar")
+        if len(set(spec["freq"])) < len(spec["freq"]):
+            ctx.count("freq:repeated")
         if einfo is not None:
-            if not einfo["ok"] or einfo["resid"] > 1e-7 or einfo["cond"] > 1e6:
+            if not einfo["ok"] or einfo["resid"] > (1e-5 if f32 else 1e-7) or einfo["cond"] > 1e6:
                 ctx.skip("eigen-decomposition outside the conditioning guard (resid %.0e / cond %.0e class)"
                          % (10 ** np.ceil(np.log10(max(einfo["resid"], 1e-17))), 10 ** np.ceil(np.log10(max(einfo["cond"], 1.0)))))
                 continue
@@ -631,9 +784,12 @@ def correspondence(ctx):
         if not all(np.isfinite(c).all() for c in impl):
             ctx.skip("non-finite response (singular dynamic stiffness at a requested frequency)")
             continue
-        e = _cmp(impl, model, TOL)
-        worst[spec["solver"]] = max(worst[spec["solver"]], e)
-        if e > TOL:
+        # float32 matrices: the implementation keeps single-precision reciprocals / LU factors
+        tol = F32_TOL if f32 else TOL
+        e = _cmp(impl, model, tol)
+        wkey = spec["solver"] + ("-f32" if f32 else "")
+        worst[wkey] = max(worst.get(wkey, 0.0), e)
+        if e > tol:
             ctx.disagree(tag, spec, {"d": _enc(sol.d), "v": _enc(sol.v), "a": _enc(sol.a), "rel_err": e},
                          {"d": _enc(model[0]), "v": _enc(model[1]), "a": _enc(model[2])})
         elif not spec["pre_eig"] and _zero_pattern(impl) != _zero_pattern(model):
@@ -641,6 +797,8 @@ def correspondence(ctx):
         if len(ctx.samples) < 4 and nontriv and ctx.evaluations % 97 == 1:
             ctx.sample({"stream": tag, "n": n, "cls": spec["cls"], "incrb": spec["incrb"], "rf_disp_only": spec["rfd"],
                         "freq": spec["freq"], "rel_err": e})
+    _state_stream(ctx, drv, state_jobs)
+    _shape_stream(ctx, drv)
     _psd_stream(ctx, rs, drv, systems, worst)
     _gauss_stream(ctx, rs, drv, worst)
     ctx.extra["max_rel_err"] = {k: float(v) for k, v in worst.items()}
@@ -649,9 +807,146 @@ def correspondence(ctx):
          "stream:su-pre-real", "stream:fd-unc-real", "stream:fd-coup-real", "stream:fd-coup-complex",
          "partition:rb", "partition:rf", "partition:el", "layout:interleaved", "layout:contiguous",
          "freq:0Hz", "path:complex-modes", "error:value-error", "rb-detection-threshold",
-         "mass:none", "mass:vector", "mass:matrix", "stream:psd", "corpus-cases"]
+         "mass:none", "mass:vector", "mass:matrix", "stream:psd", "corpus-cases",
+         "stream:state", "state:eig-path", "state:real-uncoupled", "state:rf-below-rb", "state:rb-unsorted-user",
+         "state:rf-unsorted-user", "stream:shapes", "force:1d", "freq:scalar", "freq:repeated",
+         "variant:f32", "variant:int", "variant:c64F", "psd:uf", "stream:gauss-spec", "gauss:singular-refused",
+         "gauss:pivoted"]
         + ["incrb:" + "".join(sorted(s)) for s in INCRB_SUBSETS]
     )
+
+
+def _as_idx(x, n):
+    """an index vector or a slice (after `_mk_slices`) as a list of ints"""
+    if isinstance(x, slice):
+        return [int(i) for i in np.arange(n)[x]]
+    return [int(i) for i in np.atleast_1d(x)]
+
+
+def _lu_matrix(lu_piv):
+    """P L U of a `lu_factor` result"""
+    lu, piv = lu_piv
+    k = lu.shape[0]
+    L = np.tril(lu, -1) + np.eye(k)
+    U = np.triu(lu)
+    A = L @ U
+    for i in range(k - 1, -1, -1):  # undo the row interchanges
+        if piv[i] != i:
+            A[[i, piv[i]]] = A[[piv[i], i]]
+    return A
+
+
+def _state_stream(ctx, drv, state_jobs):
+    """exact tie of the constructor bookkeeping: partition vectors and the stateful reduction of m, b, k, kdof,
+    _rb, _el, imrb, invm (Model/FreqSolve.lean: mkLayout, suInit) against the attributes of the freshly constructed
+    SolveUnc / FreqDirect object"""
+    reps = drv.ask([j[2] for j in state_jobs])
+    for (spec, ts, line), rep in zip(state_jobs, reps):
+        if rep == "bad-op":
+            raise Infra("driver C02 rejected a state request")
+        n = ts.n
+        ctx.case(("state", line), nontrivial=bool(spec["pre_eig"] or len(set(spec["cls"] or [])) > 1),
+                 branch="stream:state")
+        if not rep.startswith("ok"):
+            ctx.disagree("state", spec, "a constructed solver", rep)
+            continue
+        f = [x.strip() for x in rep[2:].split("|")]
+
+        def lst(t):
+            return None if t == "-" else [int(x) for x in t.split()]
+
+        model = {"unc": f[0] == "1", "nonrf": lst(f[1]), "rb": lst(f[2]), "el": lst(f[3])}
+        impl = {"unc": bool(ts.unc), "nonrf": _as_idx(ts.nonrf, n), "rb": _as_idx(ts.rb, n), "el": _as_idx(ts.el, n)}
+        k = _dec(spec["k"])
+        M, B, K = _modal_inputs(spec, ts)[1:4]
+        num_bad = None
+        if spec["solver"] == "fd":
+            model.update({"_rb": lst(f[4]), "_el": lst(f[5])})
+            impl.update({"_rb": _as_idx(ts._rb, n), "_el": _as_idx(ts._el, n)})
+            rows = model["nonrf"]
+        else:
+            model.update({"kdof": lst(f[6]), "_rb": lst(f[8]), "_el": lst(f[9]), "imrb?": lst(f[10]) is not None,
+                          "invm?": lst(f[11]) is not None})
+            impl.update({"kdof": _as_idx(ts.kdof, n), "_rb": _as_idx(ts._rb, n), "_el": _as_idx(ts._el, n),
+                         "imrb?": hasattr(ts, "imrb"), "invm?": hasattr(ts, "invm")})
+            rows = lst(f[7])
+            eig_path = (not model["unc"]) or spec["cplx"] or any(
+                x is not None and "i" in x for x in (spec["m"], spec["b"], spec["k"]))
+            if impl["nonrf"]:
+                ctx.count("state:eig-path" if eig_path else "state:real-uncoupled")
+            if model["rb"] and spec["rf"] and min(spec["rf"]) < max(model["rb"]):
+                ctx.count("state:rf-below-rb")
+            if spec["rb"] is not None and spec["rb"] != sorted(spec["rb"]):
+                ctx.count("state:rb-unsorted-user")
+            if spec["rf"] and list(spec["rf"]) != sorted(spec["rf"]):
+                ctx.count("state:rf-unsorted-user")
+            # the reduced arrays hold the rows the model says (values, not only shapes)
+            tol = 1e-12 if spec["pre_eig"] else 0.0
+            for nm, full, red in (("k", K, ts.k), ("b", B, ts.b), ("m", M, ts.m)):
+                if red is None or rows is None:
+                    continue
+                want = np.diag(full)[rows] if np.ndim(red) == 1 else full[np.ix_(rows, rows)]
+                if np.shape(red) != np.shape(want) or abs(red - want).max(initial=0.0) > tol * max(1.0, abs(want).max(initial=0.0)):
+                    num_bad = "self.%s is not the rows %s of the %s matrix" % (nm, rows, nm)
+            for nm, r_ in (("imrb", lst(f[10])), ("invm", lst(f[11]))):
+                if r_ is None or not hasattr(ts, nm):
+                    continue
+                dec = getattr(ts, nm)
+                if isinstance(dec, tuple):
+                    got, want = _lu_matrix(dec), M[np.ix_(r_, r_)]
+                else:
+                    got, want = 1.0 / np.asarray(dec).ravel(), np.diag(M)[r_]
+                rt = 1e-5 if spec.get("variant") == "f32" else 1e-12
+                if np.shape(got) != np.shape(want) or abs(got - want).max(initial=0.0) > rt * max(1.0, abs(want).max(initial=0.0)):
+                    num_bad = "self.%s is not the decomposition of the mass rows %s" % (nm, r_)
+        if impl != model:
+            ctx.disagree("state", spec, impl, model)
+        elif num_bad:
+            ctx.disagree("state-values", spec, num_bad, "rows as in the model state")
+
+
+def _shape_stream(ctx, drv):
+    """argument-shape axis: 1-D force arrays, scalar frequency, a single column"""
+    jobs = []
+    one = {"m": np.array([2.0]), "b": np.array([0.3]), "k": np.array([50.0]), "rb": None, "rf": None, "pre_eig": False,
+           "cls": ["el"], "unc": True, "cplx": False, "mkind": "vector", "boundary": False}
+    three = {"m": np.array([2.0, 3.0, 4.0]), "b": np.array([0.0, 0.3, 0.4]), "k": np.array([0.0, 50.0, 9e5]),
+             "rb": None, "rf": [2], "pre_eig": False, "cls": ["rb", "el", "rf"], "unc": True, "cplx": False,
+             "mkind": "vector", "boundary": False}
+    for solver in ("su", "fd"):
+        for sysd, F, freq, fvar, sc in (
+            (one, np.array([[1.0 + 2j, 2.0, -1j]]), [1.0, 2.0, 3.0], "F1d", False),  # 1-D force over 3 frequencies
+            (one, np.array([[1.5 - 1j]]), [2.5], "F1d", True),                        # 1-D force, scalar frequency
+            (three, np.array([[1.0, 2.0, 3.0 + 1j]]), [2.0], "F1d", True),             # 1-D force of length n: one row
+            (three, np.array([[1.0], [2.0], [3.0 + 1j]]), [2.0], None, True),         # n x 1, scalar frequency
+            (three, np.array([[1.0, 1.0], [2.0, 2.0], [3.0, 3.0]]), [2.0, 2.0], None, False),  # repeated frequency
+        ):
+            for incrb in ("dva", "a"):
+                spec = spec_of(sysd, solver, incrb, False, np.array(freq), F)
+                spec["fvariant"], spec["scalar_freq"] = fvar, sc
+                ts, sol = _run_impl(spec)
+                jobs.append((spec, sol, _solve_line(spec, ts)[0]))
+    reps = drv.ask([j[2] for j in jobs])
+    for (spec, sol, line), rep in zip(jobs, reps):
+        if rep == "bad-op":
+            raise Infra("driver C02 rejected a request line")
+        n, nf = len(spec["cls"]), len(spec["freq"])
+        ctx.case(("shape", line, spec["fvariant"], spec["scalar_freq"]), nontrivial=True, branch="stream:shapes")
+        ctx.count("force:1d" if spec["fvariant"] == "F1d" else "force:2d")
+        if spec["scalar_freq"]:
+            ctx.count("freq:scalar")
+        if isinstance(sol, tuple):
+            ctx.count("shape:error:" + _exc_kind(sol[1]))
+            if rep != "error " + _exc_kind(sol[1]):
+                ctx.disagree("shapes", spec, {"exception": sol[1], "msg": sol[2]}, rep[:60])
+            continue
+        model = _parse_sol(rep, n, nf)
+        if isinstance(model, str):
+            ctx.disagree("shapes", spec, "a solution of shape %s" % (np.shape(sol.d),), model)
+            continue
+        if np.shape(sol.d) != (n, nf) or _cmp((sol.d, sol.v, sol.a), model, TOL) > TOL:
+            ctx.disagree("shapes", spec, {"d": _enc(sol.d), "v": _enc(sol.v), "a": _enc(sol.a)},
+                         {"d": _enc(model[0]), "v": _enc(model[1]), "a": _enc(model[2])})
 
 
 def _psd_case(rs, sysd, solver):
@@ -677,6 +972,10 @@ def _psd_case(rs, sysd, solver):
     rfd = bool(rs.random() < 0.5)
     spec = spec_of(sysd, solver, inc, rfd, freq, np.zeros((n, nf)))
     spec.update({"t_frc": _enc(t_frc), "forcepsd": _enc(fpsd), "drm": [_enc(x) for x in drm]})
+    if rs.random() < 0.6:
+        # rigid-body / elastic uncertainty factors (1.0 takes the `!= 1.0` shortcut of the source)
+        spec["rbduf"] = float(rs.choice([1.0, 1.25, 0.8, 2.0]))
+        spec["elduf"] = float(rs.choice([1.0, 1.25, 0.8, 2.0]))
     return spec
 
 
@@ -690,7 +989,8 @@ def _run_psd(spec, ts=None):
         with warnings.catch_warnings():
             warnings.simplefilter("ignore")
             rms, psd = ode.solvepsd(ts, _dec(spec["forcepsd"]), _dec(spec["t_frc"]), np.array(spec["freq"]),
-                                    [drm], incrb=spec["incrb"], rf_disp_only=spec["rfd"])
+                                    [drm], rbduf=spec.get("rbduf", 1.0), elduf=spec.get("elduf", 1.0),
+                                    incrb=spec["incrb"], rf_disp_only=spec["rfd"])
         return ts, (rms[0], psd[0])
     except Exception as e:  # noqa: BLE001
         return ts, ("exception", type(e).__name__, str(e)[:200])
@@ -710,17 +1010,21 @@ def _psd_stream(ctx, rs, drv, systems, worst):
         drm = [_dec(x) for x in spec["drm"]]
         q = [x for x in drm if x is not None][0].shape[0]
         p = _dec(spec["t_frc"]).shape[1]
-        line = "psd %s %s %d %s %s %d %s %s" % (
+        line = "psd %s %s %d %s %s %d %s %s %s" % (
             solver, hdr, p, _bits_c(_dec(spec["t_frc"])), _bits_r(_dec(spec["forcepsd"])), q,
             " ".join("1" if x is not None else "0" for x in drm),
-            " ".join(_bits_c(x) for x in drm if x is not None))
+            " ".join(_bits_c(x) for x in drm if x is not None),
+            _bits_r([spec.get("rbduf", 1.0), spec.get("elduf", 1.0)]))
         jobs.append((spec, res, " ".join(line.split()), q, einfo))
     reps = drv.ask([j[2] for j in jobs])
     for (spec, res, line, q, einfo), rep in zip(jobs, reps):
         ctx.case(("psd", line), nontrivial=True, branch="stream:psd")
+        if spec.get("rbduf", 1.0) != 1.0 or spec.get("elduf", 1.0) != 1.0:
+            ctx.count("psd:uf")
         if rep == "bad-op":
             raise Infra("driver C02 rejected a psd request")
-        if einfo is not None and (not einfo["ok"] or einfo["resid"] > 1e-7 or einfo["cond"] > 1e6):
+        if einfo is not None and (not einfo["ok"] or einfo["cond"] > 1e6
+                                  or einfo["resid"] > (1e-5 if spec.get("variant") == "f32" else 1e-7)):
             ctx.skip("psd: eigen-decomposition outside the conditioning guard")
             continue
         if isinstance(res[0], str):
@@ -739,8 +1043,10 @@ def _psd_stream(ctx, rs, drv, systems, worst):
             ctx.skip("psd: non-finite response")
             continue
         e = max(abs(psd - mpsd).max() / max(abs(psd).max(), 1e-300), abs(rms - mrms).max() / max(abs(rms).max(), 1e-300))
-        worst["psd"] = max(worst["psd"], float(e))
-        if e > 10 * TOL:
+        f32 = spec.get("variant") == "f32"
+        wkey = "psd-f32" if f32 else "psd"
+        worst[wkey] = max(worst.get(wkey, 0.0), float(e))
+        if e > 10 * (F32_TOL if f32 else TOL):
             ctx.disagree("psd", spec, {"psd": psd.tolist(), "rms": rms.tolist(), "rel_err": float(e)},
                          {"psd": mpsd.tolist(), "rms": mrms.tolist()})
 
@@ -756,6 +1062,21 @@ def _gauss_stream(ctx, rs, drv, worst):
             continue
         lines.append("gauss %d %s %s" % (n, _bits_c(A), _bits_c(b)))
         data.append((A, b))
+    # exactly singular systems (and one that needs a row interchange first): the proved elimination refuses exactly
+    # where la.solve raises LinAlgError
+    for A, b in (([[1.0, 2.0], [2.0, 4.0]], [1.0, 1.0]), ([[0.0, 0.0], [0.0, 3.0]], [1.0, 2.0]),
+                 ([[0.0, 2.0, 1.0], [3.0, 1.0, 1.0], [3.0, 3.0, 2.0]], [1.0, 2.0, 3.0]),
+                 ([[0.0, 2.0], [3.0, 1.0]], [2.0, 5.0])):
+        A, b = np.array(A, complex), np.array(b, complex)
+        rep = drv.ask(["gauss %d %s %s" % (len(b), _bits_c(A), _bits_c(b))])[0]
+        try:
+            want = "ok"
+            la.solve(A, b)
+        except la.LinAlgError:
+            want = "error singular"
+        ctx.case(("gauss-fixed", rep), nontrivial=False, branch="gauss:" + ("singular-refused" if want != "ok" else "pivoted"))
+        if not rep.startswith(want):
+            ctx.disagree("gauss", {"A": _enc(A), "b": _enc(b)}, want, rep[:40])
     for (A, b), rep in zip(data, drv.ask(lines)):
         v = _unbits(rep.split()[1:])
         x = v[0::2] + 1j * v[1::2]
@@ -770,6 +1091,7 @@ def _gauss_stream(ctx, rs, drv, worst):
 # model-free oracle
 
 
+OBSERVATIONS = {}
 FAM_A = "fsolve-su-rb-index-array-ge2-incrb-dv"
 FAM_B = "su-imrb-rf-index-before-rb-mass-given"
 
@@ -844,6 +1166,7 @@ def _oracle_fsolve(spec, other=None):
         return out
     fam_b = _in_family_b(spec)
     d, v, a = sol.d, sol.v, sol.a
+    ORACLE_TOL = 1e-4 if spec.get("variant") == "f32" else globals()["ORACLE_TOL"]
     k = _dec(spec["k"])
     n = k.shape[0]
     M, B, K = _full(_dec(spec["m"]), n), _full(_dec(spec["b"]), n), _full(k, n)
@@ -955,6 +1278,17 @@ def _oracle_psd(spec):
     t_frc, fpsd = _dec(spec["t_frc"]), _dec(spec["forcepsd"])
     freq = np.array(spec["freq"])
     want = 0.0
+    rbduf, elduf = spec.get("rbduf", 1.0), spec.get("elduf", 1.0)
+    has_uf = rbduf != 1.0 or elduf != 1.0
+    otol = 1e-4 if spec.get("variant") == "f32" else ORACLE_TOL
+    if has_uf and spec["pre_eig"]:
+        # the factors are documented for modal-space solvers; with pre_eig the source scales *physical* rows whose
+        # numbers happen to be the modal rigid-body / elastic numbers — recorded as an observation, not judged
+        OBSERVATIONS["solvepsd-uf-with-pre_eig-solver-not-judged"] = OBSERVATIONS.get(
+            "solvepsd-uf-with-pre_eig-solver-not-judged", 0) + 1
+        return out
+    cls = spec["cls"] or []
+    uf = np.array([rbduf if c == "rb" else elduf if c == "el" else 1.0 for c in cls]) if has_uf else None
     for i in range(t_frc.shape[1]):
         s = dict(spec)
         s["F"] = _enc(t_frc[:, i:i + 1] @ np.ones((1, freq.size)))
@@ -964,14 +1298,18 @@ def _oracle_psd(spec):
         frf = 0.0
         for mat, x in zip(drm[:3], (sol.a, sol.v, sol.d)):
             if mat is not None:
-                frf = frf + mat @ x
+                # the rigid-body (elastic) part of the response enters with the factor rbduf (elduf)
+                frf = frf + mat @ (x if uf is None else x * uf[:, None])
         if drm[3] is not None:
             frf = frf + drm[3][:, i:i + 1] @ np.ones((1, freq.size))
         want = want + fpsd[i] * abs(frf) ** 2
     if not np.isfinite(want).all():
         return out
-    if _rel(psd - want, want) > ORACLE_TOL:
-        out.append({"family": "psd-resum-" + spec["solver"], "what": "solvepsd PSD != sum_i PSD_i |H_i|^2",
+    if _rel(psd - want, want) > otol:
+        out.append({"family": "psd-resum-" + spec["solver"] + ("-uf" if has_uf else ""),
+                    "what": "solvepsd PSD != sum_i PSD_i |H_i|^2"
+                            + (" (H_i with the rigid-body part times rbduf=%g, the elastic part times elduf=%g)" % (rbduf, elduf)
+                               if has_uf else ""),
                     "input": spec, "observed": np.asarray(psd).tolist(), "required": want.tolist()})
     area = np.trapezoid(np.asarray(psd), freq, axis=1)  # of the PSD that was returned
     if np.any(area < 0) or _rel(np.asarray(rms) - np.sqrt(np.maximum(area, 0)), np.sqrt(np.maximum(area, 0))) > ORACLE_TOL:
@@ -995,7 +1333,7 @@ def _oracle_sequence(spec, rs):
     except Exception:  # noqa: BLE001
         return out
     n = _dec(s["k"]).shape[0]
-    F, freq = _dec(s["F"]), np.array(s["freq"])
+    F, freq = _fsolve_args(s)
     steps = []
     try:
         with warnings.catch_warnings():
@@ -1060,8 +1398,15 @@ def search(ctx, hints):
             systems.append(gen_coup(rs, cplx, mkind))
         for _ in range(max(1, nsys // 4)):
             systems.append(gen_pre(rs, cplx, mkind))
-    systems = _corpus() + _systems_fixed() + systems
-    for sysd in systems:
+    extra = []
+    for j, sysd in enumerate(systems):
+        v = {1: "f32", 2: "int"}.get(j % 6)  # dtype axis
+        if v:
+            t = _variant_system(sysd, v)
+            if t is not None:
+                extra.append(t)
+    systems = _corpus() + _systems_fixed() + systems + extra
+    for si, sysd in enumerate(systems):
         n = np.shape(sysd["k"])[0]
         for solver in ("su", "fd"):
             if solver == "fd" and sysd["pre_eig"]:
@@ -1069,10 +1414,17 @@ def search(ctx, hints):
             has_rb = sysd["pre_eig"] and sysd.get("free") or (sysd["cls"] and "rb" in sysd["cls"])
             freq = gen_freq(rs, sysd, allow_zero=(solver == "su" or not has_rb))
             F = rs.standard_normal((n, freq.size)) + 1j * rs.standard_normal((n, freq.size))
+            fvar = None
+            if si % 5 == 3:
+                fvar = "c64F"
+                F = F.astype(np.complex64).astype(complex)
+            scalar_freq = bool(freq.size == 1 and rs.random() < 0.5)
             for incrb, rfd in _option_grid(rs, full=True):
                 if sysd["pre_eig"] and set(incrb) != set("dva"):
                     continue
-                specs.append(spec_of(sysd, solver, incrb, rfd, freq, F))
+                sp = spec_of(sysd, solver, incrb, rfd, freq, F)
+                sp["fvariant"], sp["scalar_freq"] = fvar, scalar_freq
+                specs.append(sp)
     seen = {}
 
     def add(fails):
@@ -1103,6 +1455,7 @@ def search(ctx, hints):
         if add(_oracle_psd(_psd_case(rs, sysd, solver))):
             return
     ctx.extra["oracle_failures_by_family"] = dict(seen)
+    ctx.extra["observations"] = dict(OBSERVATIONS)
 
 
 def _systems_fixed():
